@@ -329,12 +329,12 @@ def replay_l63(cfg, m):
         c.Packet.setMTU(1500)
 
 
-R.add('L6.3', l63, lambda tier: [dict(maxfrag=3, steps=4)] if tier == 'quick' else [dict(maxfrag=3, steps=5), dict(maxfrag=4, steps=6)],
+R.add('L6.3', l63, lambda tier: [dict(maxfrag=3, steps=4)] if tier == 'quick' else [dict(maxfrag=3, steps=5), dict(maxfrag=4, steps=5)],
       replay=replay_l63,
       desc='sender fragments -> receiver under an arbitrary order-with-duplicates schedule, interleaved with an APP message',
       expect=['all fragments arrived (any order, with duplicates) => delivered exactly once',
               'every delivered message is byte-identical to a sent message'],
-      bounds='<= 3 fragments / 4 deliveries (thorough 4 / 6), symbolic MTU and lengths')
+      bounds='<= 3 fragments / 4 deliveries (thorough 4 / 5), symbolic MTU and lengths')
 
 
 
@@ -350,6 +350,12 @@ def l64(maxfrag):
     tx.send(payload, retry, None)
     frags = list(tx.outgoing_messages)
     tx.outgoing_messages = []
+    if bool(symbool('another_fragmented_send_in_between')):
+        # the connection has moved on: a newer fragmented message was started before the timeout fires
+        other, OL = rope.blob('other', 0, None)
+        assume(And(OL > Packet.MAX_PAYLOAD_SIZE, OL <= Packet.MAX_PAYLOAD_SIZE + Packet.MAX_FRAGMENT_SIZE))
+        tx.send(other, retry, None)
+        tx.outgoing_messages = []
     k = choose(len(frags), 'timed_out_fragment')
     orig = frags[k]
     check(orig.callback is not None, 'fragment carries its sender callback')
@@ -369,6 +375,9 @@ def replay_l64(cfg, m):
     tx.send(os.urandom(m['p_len']), mode, None)
     frags = list(tx.outgoing_messages)
     tx.outgoing_messages = []
+    if m.get('another_fragmented_send_in_between'):
+        tx.send(os.urandom(m.get('other_len', 2000)), mode, None)
+        tx.outgoing_messages = []
     k = [v for kk, v in m.items() if kk.startswith('timed_out_fragment')][0]
     frags[k].callback(False)
     if len(tx.outgoing_messages) != 1:
